@@ -3,6 +3,7 @@ package seqmc
 import (
 	"fmt"
 	"reflect"
+	"runtime"
 	"sort"
 	"strings"
 	"unsafe"
@@ -11,8 +12,8 @@ import (
 // Dump renders the complete heap graph reachable from v (unexported fields
 // included) in a canonical form: pointers are numbered in first-visit order,
 // so sharing, back pointers and cycles are part of the text while absolute
-// addresses are not. Function values are rendered as "func" (comparators are
-// part of the reference model's key instead), channels as "chan".
+// addresses are not. Function values are rendered by the name of their code
+// (closures of one source location share a name), channels as "chan".
 func Dump(v any) string {
 	d := &dumper{ids: map[uintptr]int{}}
 	d.walk(reflect.ValueOf(v))
@@ -154,7 +155,13 @@ func (d *dumper) walk(v reflect.Value) {
 		if v.IsNil() {
 			d.sb.WriteString("func(nil)")
 		} else {
-			d.sb.WriteString("func")
+			// by code pointer: two objects that differ only in an installed callback (a heap's
+			// comparator after Convert) are different states
+			name := "func"
+			if f := runtime.FuncForPC(v.Pointer()); f != nil {
+				name = "func:" + f.Name()
+			}
+			d.sb.WriteString(name)
 		}
 	case reflect.Chan:
 		d.sb.WriteString("chan")
